@@ -1,5 +1,6 @@
 import Invoke.Model.RunnerIO
 import Invoke.Model.Decode
+import Invoke.Model.Encode
 import Invoke.Model.Terminal
 import Driver.Util
 open Inv Drv
@@ -49,6 +50,15 @@ def step' (line : String) : String :=
       let sh (x : Bool) : String := if x then "1" else "0"
       ",".intercalate [sh (touches t), sh (cbreakAlreadySet r.during), sh (r.after == t.attrs), sh r.raised]
     | _ => "bad-tty"
+  | ["E", enc, mode, pieces] =>
+    -- pieces: `;`-separated pieces of `.`-separated decimal code points; mode i = one encoder, p = per piece
+    let ps : List (List Nat) := (splitNE pieces ";").map fun p => (splitNE p ".").filterMap String.toNat?
+    let E? : Option Encoder := match enc with
+      | "utf-8" => some utf8enc | "latin-1" => some latin1enc | "utf-16" => some utf16enc | "utf-8-sig" => some utf8sigenc
+      | _ => none
+    match E? with
+    | some E => hex (if mode == "p" then E.encodePerPiece ps else E.encodeIncremental ps)
+    | none => "bad-encoding"
   | ["W", chunks] => encChars (utf8.decodeWhole ((splitNE chunks ",").map decChunk).flatten)
   | [flags, outc, errc, ins, sched] =>
     match (match flags.splitOn "," with
